@@ -122,13 +122,26 @@ def run(rep, ctx):
         "single sends and send_events bursts of 2-7 externally tagged events; monitor: each accepted external event begins processing exactly "
         "once, in sending order, on a legal (stable) configuration")
 
+    # producers that are other actors: an interpreter relaying events to / from its children
+    from harness.props import c15
+    adis, afails, astats = c15.actor_component(c15.relay_family(rng, 400 if big else 80), "c04_relay")
+    # (the actor findings of C15 are not C04's business)
+    afails = [f for f in afails if f.get("signature") is None]
+    dis = dis + adis
+    fails = fails + afails
+    rep.coverage.setdefault("components", {})["K-actor (relay)"] = dict(scenarios=astats["cases"], steps=astats["steps"], disagreements=len(adis))
+
     def search(extra):
         _, f2, _ = common.run_macro_property(rep, ctx, "c04_search", family(random.Random(ctx["seed"] + 41), 500), monitor, "search: 500 more")
-        return f2
+        return f2 + [f for f in c15.actor_component(c15.relay_family(random.Random(ctx["seed"] + 42), 100), "c04_relay_s")[1] if f.get("signature") is None]
     core.decide(rep, ctx["proof"], dis, fails, search)
     rep.assumptions += ["producers are the caller (single sends and bursts) and raising actions; timer / service / actor producers are "
                         "exercised by C08 / C09 / C15; genuinely concurrent OS threads are outside the model (DESIGN.md section 8)"]
 
 
 def replay(payload):
+    case = payload.get("case") or (payload.get("first_disagreement") or {}).get("case") or {}
+    if "steps" in case:
+        from harness.props import c15
+        return c15.replay(payload)
     return common.replay_macro(payload, monitor)
